@@ -1,10 +1,10 @@
 """C14 - interval() ticks on a fixed grid, delay() pauses a fixed span, for any body."""
 from hypothesis import strategies as st
 
-from vlib.runner import Check, Outcome
+from vlib.runner import Check, Outcome, InvalidCase
 from vlib.interp import execute, num
 from vlib.probe import Probe
-from vlib.scopelog import Structure
+from vlib.scopelog import foreign_exception, Structure
 
 PERIODS = [0, 0, 0.25, 0.5, 1, 1, 2, 3]
 
@@ -60,6 +60,23 @@ def cases(draw, tier):
                           'durs': [None, 0]})
         return {'name': 'k%d' % i, 'steps': steps}
 
+    if not floaty and draw(st.integers(0, 7)) == 0:
+        # a ticker that is interrupted inside one of its pauses (an until() whose flag a neighbour sets in that very
+        # time step), followed at once by another ticker of the same activity next to runnable neighbours
+        T = draw(st.sampled_from([1, 2.5]))
+        second = {'op': draw(st.sampled_from(['interval', 'delay'])), 'p': draw(st.sampled_from([0, 0, 1, 5])),
+                  'durs': draw(st.sampled_from([[None, None, None], [None, 0, None], [2, 2], [None]]))}
+        if second['op'] == 'interval' and second['p'] < 2:
+            second['durs'] = [d if d is None else 0 for d in second['durs']]
+        k0 = {'name': 'k0', 'steps': [{'op': 'at_ge', 't': T},
+                                      {'op': 'until', 'name': 'X0', 'notif': ['flag', 0], 'children': [],
+                                       'body': [{'op': 'delay', 'p': 0, 'durs': [None] * draw(st.integers(4, 9))}]}, second]}
+        nb = {'name': 'nb', 'steps': [{'op': 'at_ge', 't': T}] + [{'op': 'instant'} for _ in range(draw(st.integers(0, 3)))] +
+              [{'op': 'set_flag', 'i': 0, 'v': True}] + [{'op': 'instant'} for _ in range(draw(st.integers(2, 8)))]}
+        order = [k0, nb] if draw(st.booleans()) else [nb, k0]
+        spin = {'name': 'sp', 'steps': [{'op': 'at_ge', 't': T}] + [{'op': 'instant'} for _ in range(draw(st.integers(3, 10)))]}
+        roots = [{'name': 'r0', 'steps': [{'op': 'scope', 'name': 'S', 'children': order, 'body': [], 'catch': True}]}, spin]
+        return {'prog': {'start': draw(st.sampled_from([0, 0, -1, 1])), 'objs': {'flags': 1}, 'roots': roots}, 'floaty': False}
     kids = [ticker(i) for i in range(draw(st.integers(1, 3)))]
     spin = {'name': 'sp', 'steps': [{'op': 'sleep', 'd': draw(st.sampled_from([0, 0, 0.5, 1]))}] +
             [{'op': 'instant'} for _ in range(draw(st.integers(3, 10)))]}
@@ -86,6 +103,12 @@ def judge(out, case, it, oc, exc, ctx):
         return
     S = Structure(prog)
     log = [e for e in it.log if e[0] <= it.end_seq]
+    fe = foreign_exception(it.log, it.end_seq)
+    if fe:
+        if fe[1][1] == 'IndexError':
+            raise InvalidCase('program refers to an object that does not exist')
+        out.fail('run_outcome', 'activity_exc:%s' % fe[1][1], '%s%s ended with %r, which the program did not raise;%s' % (
+            fe[0][1], fe[0][2], fe[1], ctx))
     groups = {}
     for e in log:
         try:
@@ -111,7 +134,14 @@ def judge(out, case, it, oc, exc, ctx):
                 blk = S.step_at(act, idx[:cut])
                 if blk.get('op') == 'until':
                     ent = [e for e in log if e[1] == act and e[2] == idx[:cut] and e[3] == 'enter']
-                    if ent:
+                    if ent and blk['notif'][0] == 'flag':
+                        before = [e for e in log if e[3] == 'set_begin' and e[5][0] == blk['notif'][1] and e[0] < ent[0][0]]
+                        sets = [e for e in log if e[3] == 'set_begin' and e[5] == (blk['notif'][1], True) and e[0] > ent[0][0]]
+                        if before and before[-1][5][1]:
+                            H = min(H, ent[0][4])         # already set when the block is entered
+                        elif sets:
+                            H = min(H, sets[0][4])
+                    elif ent:
                         H = min(H, ent[0][4] + num(blk['notif'][1]))
         # --- model
         exp = []            # (kind, time, payload)
@@ -138,7 +168,9 @@ def judge(out, case, it, oc, exc, ctx):
                     t = done_t + p
         got = [(e[3], e[4], e[5]) for e in es if e[3] != 'begin']
         # events strictly before the deadline are mandatory, at the deadline optional, later forbidden
-        want = [x for x in exp if x[1] < H or (x[1] == H and x in got)]
+        mand = [x for x in exp if x[1] < H]
+        opt = [x for x in exp if x[1] == H]
+        want = mand + opt[:max(0, len(got) - len(mand))]      # (any prefix of what is due exactly at the deadline)
         if case.get('floaty'):
             # float stress: only the IntervalExceeded-iff clause (kinds, not dates)
             if [x[0] for x in got] != [x[0] for x in want]:
